@@ -290,6 +290,7 @@ def explore(ws, prog):
             tracing = B.convert_tracing(mod.f)
         except Exception as e:
             c.conv_error = 'tracing conversion: %s: %s' % (type(e).__name__, e)
+    c.same_code = tracing is not None and B.same_generated_code(c.trace.final_source, getattr(tracing, '__c02_source__', None))
     c.counters = {'ifs': 0, 'whiles': 0, 'fors': 0, 'zero_trip': 0}
     if c.conv_error is None:
         for a in prog.inputs:
@@ -318,7 +319,7 @@ def record(c):
     """Plain-data summary of one explored program (picklable: it crosses a process boundary)."""
     r = {'stream': c.stream, 'key': c.prog.key, 'fsrc': c.fsrc, 'inputs': [list(a) for a in c.prog.inputs],
          'features': sorted(c.prog.features), 'conv_error': c.conv_error, 'results': c.results, 'counters': c.counters,
-         'classes': classify(c.source_fn, c.module_names, c.cf_node, c.annos_of, c.final_fn),
+         'classes': classify(c.source_fn, c.module_names, c.cf_node, c.annos_of, c.final_fn), 'same_code': c.same_code,
          'frag': None, 'unsupported': None, 'shape': None}
     if c.conv_error is None:
         try:
@@ -456,6 +457,10 @@ def check(run, only=None):
         if r['shape']:
             stats['shape_mismatch'] += 1
             shape_problems.append({'source': r['fsrc'], 'problem': r['shape']})
+    nondet = [{'source': r['fsrc']} for r in recs if r['conv_error'] is None and not r['same_code']]
+    run.oblige('correspondence:conversion-deterministic', 'correspondence', not nondet,
+               ('two conversions of the same function (default operators / tracing backend) generated different code: '
+                + json.dumps(nondet[:2])) if nondet else '')
     run.oblige('correspondence:target-shape', 'correspondence', not shape_problems,
                json.dumps(shape_problems[:2]) if shape_problems else '')
 
@@ -509,7 +514,7 @@ def check(run, only=None):
                     dis['sem-source'].append({'source': r['fsrc'], 'input': list(a), 'python': repr(r0), 'model': src})
                 if nat != out_of_py(r1):
                     dis['sem-native'].append({'source': r['fsrc'], 'input': list(a), 'python': repr(r1), 'model': nat})
-                if fun != out_of_py(r2):
+                if fun != out_of_py(r2) and r['same_code']:
                     dis['sem-functional'].append({'source': r['fsrc'], 'input': list(a), 'python': repr(r2), 'model': fun})
                 # instances of the theorems on real annotations: hypotheses hold  =>  the runs agree
                 if allh and not (src == natm and (fun == src or fun[0] == 'exc')):
